@@ -10,6 +10,7 @@ import (
 	"fmt"
 	"math/rand"
 	"net"
+	"net/http"
 	"os"
 	"path/filepath"
 	"runtime/debug"
@@ -58,14 +59,11 @@ type SUT struct {
 	Pub    pubsubpb.PublisherClient
 	Sub    pubsubpb.SubscriberClient
 
-	mu     sync.Mutex
-	panics []PanicRecord
-	lis    *bufconn.Listener
+	mu          sync.Mutex
+	panics      []PanicRecord
+	lis         *bufconn.Listener
+	delayRouter http.Handler
 }
-
-type readyOK struct{}
-
-func (readyOK) Ready() error { return nil }
 
 func scratchRoot() string {
 	if st, err := os.Stat("/dev/shm"); err == nil && st.IsDir() {
